@@ -102,6 +102,9 @@ Definition op_actor (o : op) : option nat :=
 Definition is_event (o : op) : bool := match o with Event _ _ _ => true | _ => false end.
 
 Definition nthz (l : list Z) (r : nat) : Z := nth r l 0%Z.
+(* a negative counter = not observed at this step (the first of two operations the
+   harness issued concurrently: the server's counters are read once, after both) *)
+Definition seen (l : list Z) (r : nat) : bool := Z.leb 0 (nthz l r).
 
 (* ---- the property, evaluated on the implementation's observations alone.
    tr / tr' : the callers' bookkeeping before / after the operation. ---- *)
@@ -180,11 +183,11 @@ Definition prop_step (nres : nat) (tr : tracker) (ex : nat -> nat) (prev : optio
     ("extra-informer-started",
        forallb (fun r => Z.leb (nthz (ob_lists ob) r) (Z.of_nat (starts_step tr ex o r))) (seq 0 nres));
     ("no-fresh-informer",
-       forallb (fun r => Z.leb (Z.of_nat (starts_step tr ex o r)) (nthz (ob_lists ob) r)) (seq 0 nres));
+       forallb (fun r => negb (seen (ob_lists ob) r) || Z.leb (Z.of_nat (starts_step tr ex o r)) (nthz (ob_lists ob) r)) (seq 0 nres));
     ("informer-not-stopped-after-last-close",
-       forallb (fun r => negb (Nat.eqb (open_count tr' r) 0) || Z.eqb (nthz (ob_watch ob) r) 0) (seq 0 nres));
+       forallb (fun r => negb (seen (ob_watch ob) r) || negb (Nat.eqb (open_count tr' r) 0) || Z.eqb (nthz (ob_watch ob) r) 0) (seq 0 nres));
     ("informer-stopped-while-subscribed",
-       forallb (fun r => Nat.eqb (open_count tr' r) 0 || Z.ltb 0 (nthz (ob_watch ob) r)) (seq 0 nres));
+       forallb (fun r => negb (seen (ob_watch ob) r) || Nat.eqb (open_count tr' r) 0 || Z.ltb 0 (nthz (ob_watch ob) r)) (seq 0 nres));
     (* no call ever panics (a repeated Close is a no-op) *)
     ("panic", negb (ob_panic ob))
   ].
@@ -251,8 +254,8 @@ Definition model_step (nres : nat) (st : state) (ob : C18_obs) : option string :
                          | Some rest => forallb (extra_ok st st') rest
                          | None => true
                          end);
-    ("running", forallb (fun r => Bool.eqb (running st' r) (Z.ltb 0 (nthz (ob_watch ob) r))) (seq 0 nres));
-    ("generation", forallb (fun r => Z.eqb (Z.of_nat (generation st' r)) (nthz (ob_lists ob) r)) (seq 0 nres))
+    ("running", forallb (fun r => negb (seen (ob_watch ob) r) || Bool.eqb (running st' r) (Z.ltb 0 (nthz (ob_watch ob) r))) (seq 0 nres));
+    ("generation", forallb (fun r => negb (seen (ob_lists ob) r) || Z.eqb (Z.of_nat (generation st' r)) (nthz (ob_lists ob) r)) (seq 0 nres))
   ].
 
 Fixpoint model_steps (nres : nat) (k : nat) (st : state) (l : list C18_obs) : option string :=
